@@ -122,6 +122,13 @@ func propC05(w *World, r *Report) {
 	// ---- storagescope
 	checkStorageScope(w, r, fd, caseConsts, info)
 
+	// ---- operator semantics
+	checkArithSem(w, r, caseConsts, info)
+	checkFlexSem(w, r, fd, caseConsts, info)
+	checkWidthOperands(w, r)
+	checkCallDepth(w, r, p, fn, caseConsts)
+	checkPerFD(w, r)
+
 	// ---- safety of the interpreter (shared with C02)
 	var fns []*ssa.Function
 	for f := range w.libReach([]*ssa.Function{fn}) {
@@ -687,4 +694,528 @@ func checkStorageScope(w *World, r *Report, fd *ast.FuncDecl, caseConsts map[int
 		r.OK("storagescope", key, w.Pos(obj.Pos()), "declared once per charstring, outside the loops")
 	}
 	r.Floor("storagescope", 1)
+}
+
+// ---- operator semantics tables (TN5177 section 4.4 arithmetic, 4.1 flex)
+
+// checkArithSem: the two-operand arithmetic operators compute
+// stack[k] OP stack[k+1] on the float operands themselves.
+func checkArithSem(w *World, r *Report, caseConsts map[int64]*ast.CaseClause, info *types.Info) {
+	ops := []struct {
+		code int64
+		name string
+		tok  token.Token
+		asg  token.Token
+	}{
+		{0x0c0a, "add", token.ADD, token.ADD_ASSIGN},
+		{0x0c0b, "sub", token.SUB, token.SUB_ASSIGN},
+		{0x0c18, "mul", token.MUL, token.MUL_ASSIGN},
+		{0x0c0c, "div", token.QUO, token.QUO_ASSIGN},
+	}
+	isStackAt := func(e ast.Expr, plus int64) (string, bool) {
+		ie, ok := ast.Unparen(e).(*ast.IndexExpr)
+		if !ok {
+			return "", false
+		}
+		base := types.ExprString(ie.X)
+		idx := ast.Unparen(ie.Index)
+		if plus == 0 {
+			if id, ok := idx.(*ast.Ident); ok {
+				return base + "[" + id.Name, true
+			}
+			return "", false
+		}
+		be, ok := idx.(*ast.BinaryExpr)
+		if !ok || be.Op != token.ADD {
+			return "", false
+		}
+		id, ok1 := be.X.(*ast.Ident)
+		tv, ok2 := info.Types[be.Y]
+		if !ok1 || !ok2 || tv.Value == nil {
+			return "", false
+		}
+		if v, _ := constant.Int64Val(constant.ToInt(tv.Value)); v != plus {
+			return "", false
+		}
+		return base + "[" + id.Name, true
+	}
+	for _, op := range ops {
+		key := r.MkKey("arithsem", "decodeCharString", "operator "+op.name)
+		cc := caseConsts[op.code]
+		if cc == nil {
+			r.Fail("arithsem", key, "-", "no case for the operator", nil)
+			continue
+		}
+		found := false
+		ast.Inspect(cc, func(n ast.Node) bool {
+			switch x := n.(type) {
+			case *ast.BinaryExpr:
+				if x.Op == op.tok {
+					a, ok1 := isStackAt(x.X, 0)
+					b, ok2 := isStackAt(x.Y, 1)
+					if ok1 && ok2 && a == b {
+						found = true
+					}
+				}
+			case *ast.AssignStmt:
+				if x.Tok == op.asg && len(x.Lhs) == 1 && len(x.Rhs) == 1 {
+					a, ok1 := isStackAt(x.Lhs[0], 0)
+					b, ok2 := isStackAt(x.Rhs[0], 1)
+					if ok1 && ok2 && a == b {
+						found = true
+					}
+				}
+			}
+			return true
+		})
+		if found {
+			r.OK("arithsem", key, w.Pos(cc.Pos()), "computes stack[k] "+op.tok.String()+" stack[k+1] on the operands themselves")
+		} else {
+			r.Fail("arithsem", key, w.Pos(cc.Pos()), "the case for "+op.name+" does not compute stack[k] "+op.tok.String()+" stack[k+1] on the two top operands as they are (e.g. it converts them to integers first)", nil)
+		}
+	}
+	r.Floor("arithsem", 4)
+}
+
+// flexSpec: for each flex operator the coefficients of the operands
+// (stack indices) in each of the 12 arguments of the two curves.
+// The two variants of flex1 are keyed 37 (|dx| > |dy|) and -37.
+func flexSpec() map[int64][12]map[int]int {
+	s := func(ix ...int) map[int]int {
+		m := map[int]int{}
+		for _, i := range ix {
+			if i >= 0 {
+				m[i]++
+			} else {
+				m[-i-100]--
+			}
+		}
+		return m
+	}
+	neg := func(i int) int { return -i - 100 }
+	z := s()
+	return map[int64][12]map[int]int{
+		0x0c23: {s(0), s(1), s(2), s(3), s(4), s(5), s(6), s(7), s(8), s(9), s(10), s(11)},
+		0x0c22: {s(0), z, s(1), s(2), s(3), z, s(4), z, s(5), s(neg(2)), s(6), z},
+		0x0c24: {s(0), s(1), s(2), s(3), s(4), z, s(5), z, s(6), s(7), s(8), s(neg(1), neg(3), neg(7))},
+		0x0c25: {s(0), s(1), s(2), s(3), s(4), s(5), s(6), s(7), s(8), s(9), s(10), s(neg(1), neg(3), neg(5), neg(7), neg(9))},
+		-0x0c25: {s(0), s(1), s(2), s(3), s(4), s(5), s(6), s(7), s(8), s(9), s(neg(0), neg(2), neg(4), neg(6), neg(8)), s(10)},
+	}
+}
+
+// checkFlexSem compares the arguments of the two curves each flex operator
+// draws with the specification, as linear combinations of the operands.
+func checkFlexSem(w *World, r *Report, fd *ast.FuncDecl, caseConsts map[int64]*ast.CaseClause, info *types.Info) {
+	spec := flexSpec()
+	names := map[int64]string{0x0c23: "flex", 0x0c22: "hflex", 0x0c24: "hflex1", 0x0c25: "flex1"}
+	// the curve drawing closure: the callee with six arguments used in the flex case
+	for _, code := range []int64{0x0c22, 0x0c23, 0x0c24, 0x0c25} {
+		key := r.MkKey("flexsem", "decodeCharString", "operator "+names[code])
+		cc := caseConsts[code]
+		if cc == nil {
+			r.Fail("flexsem", key, "-", "no case for the operator", nil)
+			continue
+		}
+		// local definitions  name := linear expression
+		defs := map[types.Object]map[int]int{}
+		var lin func(e ast.Expr) (map[int]int, bool)
+		lin = func(e ast.Expr) (map[int]int, bool) {
+			switch x := ast.Unparen(e).(type) {
+			case *ast.BasicLit:
+				if tv, ok := info.Types[x]; ok && tv.Value != nil && constant.Sign(tv.Value) == 0 {
+					return map[int]int{}, true
+				}
+			case *ast.Ident:
+				if m, ok := defs[info.ObjectOf(x)]; ok {
+					return m, true
+				}
+			case *ast.IndexExpr:
+				if tv, ok := info.Types[x.Index]; ok && tv.Value != nil {
+					i, _ := constant.Int64Val(constant.ToInt(tv.Value))
+					return map[int]int{int(i): 1}, true
+				}
+			case *ast.UnaryExpr:
+				if x.Op == token.SUB {
+					m, ok := lin(x.X)
+					if !ok {
+						return nil, false
+					}
+					n := map[int]int{}
+					for k, v := range m {
+						n[k] = -v
+					}
+					return n, true
+				}
+			case *ast.BinaryExpr:
+				if x.Op == token.ADD || x.Op == token.SUB {
+					a, ok1 := lin(x.X)
+					b, ok2 := lin(x.Y)
+					if !ok1 || !ok2 {
+						return nil, false
+					}
+					n := map[int]int{}
+					for k, v := range a {
+						n[k] += v
+					}
+					for k, v := range b {
+						if x.Op == token.ADD {
+							n[k] += v
+						} else {
+							n[k] -= v
+						}
+					}
+					for k, v := range n {
+						if v == 0 {
+							delete(n, k)
+						}
+					}
+					return n, true
+				}
+			}
+			return nil, false
+		}
+		// collect calls with six arguments, remembering whether they sit in the then/else branch of an if
+		type call struct {
+			args   []ast.Expr
+			branch int // 0 none, 1 then, 2 else
+		}
+		var calls []call
+		var walk func(n ast.Node, branch int)
+		walk = func(n ast.Node, branch int) {
+			ast.Inspect(n, func(m ast.Node) bool {
+				switch x := m.(type) {
+				case *ast.AssignStmt:
+					if x.Tok == token.DEFINE && len(x.Lhs) == 1 && len(x.Rhs) == 1 {
+						if id, ok := x.Lhs[0].(*ast.Ident); ok {
+							if l, ok := lin(x.Rhs[0]); ok {
+								defs[info.ObjectOf(id)] = l
+							}
+						}
+					}
+				case *ast.IfStmt:
+					if m == n {
+						return true
+					}
+					// the inner if of flex1: condition compares |dx| with |dy|
+					if strings.Contains(types.ExprString(x.Cond), "Abs") && x.Else != nil {
+						walk(x.Body, 1)
+						walk(x.Else, 2)
+						return false
+					}
+				case *ast.CallExpr:
+					if len(x.Args) == 6 {
+						calls = append(calls, call{x.Args, branch})
+					}
+				}
+				return true
+			})
+		}
+		walk(cc, 0)
+		variants := []int64{code}
+		if code == 0x0c25 {
+			variants = []int64{code, -code}
+		}
+		bad := ""
+		for vi, v := range variants {
+			want := spec[v]
+			var got []map[int]int
+			for _, c := range calls {
+				if c.branch != 0 && c.branch != vi+1 {
+					continue
+				}
+				for _, a := range c.args {
+					l, ok := lin(a)
+					if !ok {
+						bad = "argument " + types.ExprString(a) + " is not a sum of operands"
+					}
+					got = append(got, l)
+				}
+			}
+			if bad != "" {
+				break
+			}
+			if len(got) != 12 {
+				bad = fmt.Sprintf("%d curve arguments found, the operator draws two curves (12 arguments)", len(got))
+				break
+			}
+			for i := 0; i < 12; i++ {
+				if !sameCoeffs(got[i], want[i]) {
+					bad = fmt.Sprintf("argument %d of the %s is %s, the specification says %s", i%6+1, []string{"first", "second"}[i/6], coeffStr(got[i]), coeffStr(want[i]))
+					if len(variants) > 1 {
+						bad += []string{" (case |dx| > |dy|)", " (case |dx| <= |dy|)"}[vi]
+					}
+					break
+				}
+			}
+			if bad != "" {
+				break
+			}
+		}
+		if bad == "" {
+			r.OK("flexsem", key, w.Pos(cc.Pos()), "both curves have the arguments of TN5177")
+		} else {
+			r.Fail("flexsem", key, w.Pos(cc.Pos()), names[code]+": "+bad, nil)
+		}
+	}
+	r.Floor("flexsem", 4)
+}
+
+func sameCoeffs(a, b map[int]int) bool {
+	if len(a) != len(b) {
+		return false
+	}
+	for k, v := range a {
+		if b[k] != v {
+			return false
+		}
+	}
+	return true
+}
+
+func coeffStr(m map[int]int) string {
+	if len(m) == 0 {
+		return "0"
+	}
+	var ks []int
+	for k := range m {
+		ks = append(ks, k)
+	}
+	sort.Ints(ks)
+	s := ""
+	for _, k := range ks {
+		switch m[k] {
+		case 1:
+			s += fmt.Sprintf("+arg%d", k)
+		case -1:
+			s += fmt.Sprintf("-arg%d", k)
+		default:
+			s += fmt.Sprintf("%+d*arg%d", m[k], k)
+		}
+	}
+	return strings.TrimPrefix(s, "+")
+}
+
+// checkWidthOperands: TN5176 table 23: defaultWidthX and nominalWidthX are
+// "number" operands (integer or real); the decoder setup must read them
+// with the getter that accepts reals.
+func checkWidthOperands(w *World, r *Report) {
+	sp := w.SSAPkg[modPath+"/cff"]
+	n := 0
+	for _, fn := range w.LibFuncs() {
+		if fnPkgPath(fn) != sp.Pkg.Path() {
+			continue
+		}
+		for _, b := range fn.Blocks {
+			for _, in := range b.Instrs {
+				call, ok := in.(*ssa.Call)
+				if !ok {
+					continue
+				}
+				callee := call.Call.StaticCallee()
+				if callee == nil || !strings.HasPrefix(callee.Name(), "get") || len(call.Call.Args) < 2 {
+					continue
+				}
+				c, ok := call.Call.Args[1].(*ssa.Const)
+				if !ok || c.Value == nil {
+					continue
+				}
+				v, exact := constant.Int64Val(constant.ToInt(c.Value))
+				if !exact || (v != 20 && v != 21) || !strings.HasSuffix(c.Type().String(), "dictOp") {
+					continue
+				}
+				n++
+				name := map[int64]string{20: "defaultWidthX", 21: "nominalWidthX"}[v]
+				key := r.MkKey("widthoperands", fnName(fn), "read of "+name)
+				if callee.Name() == "getFloat" {
+					r.OK("widthoperands", key, w.Pos(call.Pos()), "read as a number (integer or real)")
+				} else {
+					r.Fail("widthoperands", key, w.Pos(call.Pos()), name+" is a 'number' operand of the Private DICT (TN5176) but is read with "+callee.Name()+": a width written as a real number is lost and every glyph width that depends on it is wrong", nil)
+				}
+			}
+		}
+	}
+	r.Floor("widthoperands", 2)
+}
+
+// checkCallDepth: TN5177 Appendix B limits subroutine nesting to 10 levels:
+// a call that makes the nesting depth 10 is legal, 11 is not.
+func checkCallDepth(w *World, r *Report, p *bprover, fn *ssa.Function, caseConsts map[int64]*ast.CaseClause) {
+	key := r.MkKey("calldepth", "decodeCharString", "subroutine nesting limit")
+	cc := caseConsts[10]
+	if cc == nil {
+		r.Fail("calldepth", key, "-", "no case for callsubr", nil)
+		return
+	}
+	found := false
+	for _, b := range fn.Blocks {
+		if len(b.Instrs) == 0 {
+			continue
+		}
+		ifi, ok := b.Instrs[len(b.Instrs)-1].(*ssa.If)
+		if !ok || ifi.Cond.Pos() < cc.Pos() || ifi.Cond.Pos() > cc.End() {
+			continue
+		}
+		cmp, ok := ifi.Cond.(*ssa.BinOp)
+		if !ok {
+			continue
+		}
+		// one side is the length of a slice that was just extended by append
+		var lenv ssa.Value
+		for _, side := range []ssa.Value{cmp.X, cmp.Y} {
+			if c, ok := side.(*ssa.Call); ok {
+				if bi, ok := c.Call.Value.(*ssa.Builtin); ok && bi.Name() == "len" {
+					if ap, ok := c.Call.Args[0].(*ssa.Call); ok {
+						if b2, ok := ap.Call.Value.(*ssa.Builtin); ok && b2.Name() == "append" {
+							lenv = c.Call.Args[0]
+						}
+					}
+				}
+			}
+		}
+		if lenv == nil {
+			continue
+		}
+		// which successor returns an error?
+		errSucc := -1
+		for si, s := range b.Succs {
+			if len(s.Instrs) > 0 {
+				if ret, ok := s.Instrs[len(s.Instrs)-1].(*ssa.Return); ok && len(ret.Results) == 2 {
+					if c, ok := ret.Results[1].(*ssa.Const); !ok || c.Value != nil {
+						errSucc = si
+					}
+				}
+			}
+		}
+		if errSucc < 0 {
+			continue
+		}
+		found = true
+		depth := p.lenOf(lenv)
+		var fe, fo []bfact
+		p.condFacts(ifi.Cond, errSucc == 0, &fe) // facts on the rejecting edge
+		p.condFacts(ifi.Cond, errSucc != 0, &fo) // facts on the accepting edge
+		neg, _ := depth.scale(-1)
+		rejOK := p.prove(append(p.factsAt(b), fe...), depth.addc(-11), b, 1)
+		accOK := p.prove(append(p.factsAt(b), fo...), neg.addc(10), b, 1)
+		switch {
+		case rejOK && accOK:
+			r.OK("calldepth", key, w.Pos(ifi.Cond.Pos()), "a call is rejected exactly when it makes the nesting depth exceed 10")
+		case !rejOK:
+			r.Fail("calldepth", key, w.Pos(ifi.Cond.Pos()), "the nesting check can reject a call that makes the depth 10 or less: a well-formed program nested ten deep (the limit of TN5177) is refused", nil)
+		default:
+			r.Fail("calldepth", key, w.Pos(ifi.Cond.Pos()), "the nesting check lets the depth exceed 10", nil)
+		}
+	}
+	if !found {
+		r.Fail("calldepth", key, w.Pos(cc.Pos()), "no check of the call stack depth after pushing the return address", nil)
+	}
+	r.Floor("calldepth", 1)
+}
+
+// checkPerFD: in cff.Read every glyph stored into the font is the direct
+// result of decodeCharString called on the decoder selected by FDSelect for
+// that same glyph index (per-FD subroutines and widths).
+func checkPerFD(w *World, r *Report) {
+	fn := w.Func("cff.Read")
+	key := r.MkKey("perfd", "cff.Read", "glyph decoding")
+	if fn == nil {
+		r.Fatal("cff.Read does not resolve")
+		return
+	}
+	n := 0
+	bad := ""
+	var pos token.Pos
+	for _, b := range fn.Blocks {
+		for _, in := range b.Instrs {
+			st, ok := in.(*ssa.Store)
+			if !ok {
+				continue
+			}
+			ia, ok := st.Addr.(*ssa.IndexAddr)
+			if !ok || !strings.HasSuffix(st.Val.Type().String(), "cff.Glyph") {
+				continue
+			}
+			n++
+			pos = st.Pos()
+			// all sources of the stored value
+			var srcs []ssa.Value
+			seen := map[ssa.Value]bool{}
+			var walk func(v ssa.Value)
+			walk = func(v ssa.Value) {
+				if seen[v] {
+					return
+				}
+				seen[v] = true
+				switch x := v.(type) {
+				case *ssa.Phi:
+					for _, e := range x.Edges {
+						walk(e)
+					}
+				case *ssa.Extract:
+					walk(x.Tuple)
+				default:
+					srcs = append(srcs, v)
+				}
+			}
+			walk(st.Val)
+			for _, s := range srcs {
+				call, ok := s.(*ssa.Call)
+				if !ok {
+					if c, isC := s.(*ssa.Const); isC && c.Value == nil {
+						continue
+					}
+					bad = "a glyph that is not the result of a call is stored"
+					continue
+				}
+				callee := call.Call.StaticCallee()
+				if callee == nil || callee.Name() != "decodeCharString" {
+					name := "a dynamic call"
+					if callee != nil {
+						name = callee.Name()
+					}
+					bad = "a glyph produced by " + name + " (not by decodeCharString) is stored"
+					continue
+				}
+				// receiver: decoders[fdSelect(gid)] with the same gid as the store index
+				recvSlice := backSlice(call.Call.Args[0])
+				okSel := false
+				for v := range recvSlice {
+					if c2, ok := v.(*ssa.Call); ok && len(c2.Call.Args) == 1 && c2.Call.StaticCallee() == nil {
+						// call of the FDSelect function value: its argument must derive from the store index
+						if backSlice(c2.Call.Args[0])[ia.Index] || backSlice(ia.Index)[c2.Call.Args[0]] || sameRoot(c2.Call.Args[0], ia.Index) {
+							okSel = true
+						}
+					}
+				}
+				if !okSel {
+					bad = "the decoder used is not selected by FDSelect of the glyph that is stored"
+				}
+			}
+		}
+	}
+	if n == 0 {
+		r.Fail("perfd", key, w.Pos(fn.Pos()), "no store of a decoded glyph found in cff.Read", nil)
+	} else if bad != "" {
+		r.Fail("perfd", key, w.Pos(pos), bad+": glyphs of CID-keyed fonts must be decoded with the subroutines and widths of their own font DICT", nil)
+	} else {
+		r.OK("perfd", key, w.Pos(pos), "each stored glyph is decodeCharString of the decoder FDSelect gives for that glyph")
+	}
+	r.Floor("perfd", 1)
+}
+
+// sameRoot: both values are conversions of one value.
+func sameRoot(a, b ssa.Value) bool {
+	root := func(v ssa.Value) ssa.Value {
+		for {
+			switch x := v.(type) {
+			case *ssa.Convert:
+				v = x.X
+			case *ssa.ChangeType:
+				v = x.X
+			default:
+				return v
+			}
+		}
+	}
+	return root(a) == root(b)
 }
